@@ -40,6 +40,7 @@ pub static SPEC: Spec = Spec {
         "synthetic:torn-tail",
         "synthetic:reencoded-entries",
         "synthetic_images_opened",
+        "big_core_boundaries",
     ],
     rule: "forward: at EVERY operation boundary of writer histories (C01 alphabet, random) and replica sessions the four store images are decoded by a reader that knows only the JavaScript layout (two crc-framed 4096-byte header slots chosen by their header bits, crc-framed flag-encoded entries from byte 8192 carrying the current header bit, 4096-byte little-endian bitfield pages, 40-byte tree nodes, concatenated blocks) and must give exactly what the API reports: public key, writability, fork, length, byte length, contiguous length, has(i) for every i, bytes of every held block read from the data image at the offset derived from the node table; framing rules are checked (partial bit clear on written entries, entries carry the current header bit, no trailing bytes after the last entry, bitfield image a multiple of 4096 bytes, tree image a multiple of 40 bytes, re-encoding every entry with the reference encoder reproduces the stored bytes); the five-step interop scenario must reproduce the 20 SHA-256 file hashes certified against the JavaScript implementation; reverse: from real boundary images, JS-valid images in layouts the crate never writes are synthesised (header only in slot 0 / only in slot 1, each of the four header-bit pairs, entries re-framed with the matching bit, trailing partial-flagged entries of an unfinished atomic batch, stale entries carrying the other bit, torn tail) and open(true) must succeed and observe exactly the state the reference reader assigns to that image; distinct = image hash",
     assumptions: &[
@@ -494,6 +495,15 @@ fn run_case(ctx: &mut Ctx, id: u64) {
                     }
                 }
             }
+        }
+        return;
+    }
+    if id == 65 {
+        // a core longer than one bitfield page, flushed, reopened, decoded by the reference reader
+        let ops = vec![Op::Batch((0..32_800u32).map(|i| (i + 1, 1)).collect()), Op::Reopen, Op::Clear(32_760, 32_770), Op::Reopen];
+        ctx.count("big_core_boundaries");
+        if let Err((i, f)) = writer_history(ctx, &ops, 65, &mut r, 0) {
+            report(ctx, f.sig, format!("op #{i}: {}", f.detail), json!({"kind":"big-history"}));
         }
         return;
     }
